@@ -171,6 +171,10 @@ class C10(Prop):
             if not ok:
                 res.excluded = why
                 return res
+            kf = GW.known_finding_class(case)
+            if kf:
+                res.excluded = kf
+                return res
             base = case["root"]
             s2, applied = apply_insertions(d, base, ins, True, only_ref_objects=bool(case.get("ref_siblings")))
             if case.get("ref_siblings") and applied:
